@@ -1351,6 +1351,10 @@ class Interp:
                     yield v.pull()
                 except StopIter:
                     return
+        lazy = getattr(v, 'abs_pull', None)
+        if lazy is not None:
+            yield from lazy(self)
+            return
         items = self.iterate(v)
         if items is None:
             raise Fail(f'iteration over {v!r} line {getattr(node, "lineno", "?")}')
